@@ -80,7 +80,8 @@ type linOpts struct {
 }
 
 type linEnv struct {
-	opts linOpts
+	opts        linOpts
+	structLoads *rangeEnv // when set, loads of read-only cells are keyed structurally
 	memo map[ssa.Value]Lin
 }
 
@@ -219,6 +220,11 @@ func (e *linEnv) atomKey(v ssa.Value) string {
 		if a.Op == token.MUL && e.opts.pathLoads {
 			if p := addrPath(a.X); p != "" {
 				return "load:" + p
+			}
+		}
+		if a.Op == token.MUL && e.structLoads != nil {
+			if k := e.structLoads.structKey(a.X); k != "" {
+				return "cell:" + k
 			}
 		}
 	}
